@@ -19,4 +19,9 @@ if [ "$REWRITE" = 1 ]; then
 fi
 python3 "$VERIF_ROOT/bin/mkoverlay.py" "$B/overlay-sched.json" --sched
 cd "$VERIF_REPO"
-go build -tags verif -overlay "$B/overlay-sched.json" -o "$B/vtool-sched" ./zz_verif/vt
+if ! go build -tags verif -overlay "$B/overlay-sched.json" -o "$B/vtool-sched" ./zz_verif/vt 2>"$B/shim-build.err"; then
+  # a private function wrapped by the export shim was renamed or re-typed: build without the shim,
+  # the command-level seams then go through the real CLI (inproc.ShimAvailable = false)
+  echo "NOTE: export shim does not compile against this tree, building the fallback (verif_noshim)"; head -5 "$B/shim-build.err"
+  go build -tags "verif verif_noshim" -overlay "$B/overlay-sched.json" -o "$B/vtool-sched" ./zz_verif/vt
+fi
